@@ -1089,4 +1089,319 @@ Section Proofs.
       intros k0 Hk0. discriminate.
   Qed.
 
+
+  Theorem step_JInv' c c' tid ch : AInv c -> JInv' c -> step c tid ch = Some c' -> JInv' c'.
+  Proof. apply step_gen_JInv'. Qed.
+
+  (* in the form asked for (the post-state's storage invariant is not needed) *)
+  Theorem step_JInv c c' tid ch :
+    AInv c -> AInv c' -> JInv' c -> step c tid ch = Some c' -> JInv c'.
+  Proof. intros HA _ HJ Hs. exact (proj1 (step_JInv' c c' tid ch HA HJ Hs)). Qed.
+
+  (* ---------------------------------------------------------------- 3. every reachable state *)
+
+  Theorem reachable_JInv' cap lim progs c0 c :
+    (forall c1, reachable c0 c1 -> AInv c1) -> c0 = init cap lim progs ->
+    reachable c0 c -> JInv' c.
+  Proof.
+    intros HA -> Hr. induction Hr as [|c c' tid ch Hr IH Hs].
+    - apply init_JInv'.
+    - eapply step_JInv'; eauto.
+  Qed.
+
+  Lemma reachable_trans c0 c1 c2 : reachable c0 c1 -> reachable c1 c2 -> reachable c0 c2.
+  Proof.
+    intros H1 H2. induction H2 as [|c c' tid ch H2 IH Hs]; auto.
+    eapply reach_step; eauto.
+  Qed.
+
+  (* ---------------------------------------------------------------- what a step does to histories *)
+
+  Lemma step_gen_shape atomic c c' tid ch : step_gen atomic c tid ch = Some c' ->
+    exists t t', moves c c' tid t t' /\
+      (t_outs t' = t_outs t \/
+       exists o, t_outs t' = (t_call t, o) :: t_outs t /\
+                 (o = RErr KeySpaceExhaustion ->
+                  keycap <= c_key c /\
+                  ((exists s r, t_pc t = PKeyAdd s r) \/ (exists a s, t_pc t = PSKeyAdd a s)))).
+  Proof.
+    intros Hstep. unfold Conc.step_gen in Hstep.
+    destruct (nth_error (c_threads c) tid) as [t|] eqn:Hn; [|discriminate].
+    destruct (blocked c tid (t_pc t)) eqn:Hb; [discriminate|].
+    exists t.
+    destruct (t_pc t) eqn:Hpc.
+    - destruct (t_prog t) as [|cl rest]; [discriminate|]. injection Hstep as <-.
+      eexists. split; [split; [exact Hn|reflexivity]|left; reflexivity].
+    - destruct c0 as [s|a s|s| | |]; try discriminate; injection Hstep as <-.
+      + destruct (map_get c s).
+        * eexists. split; [split; [exact Hn|reflexivity]|right; eexists; split; [reflexivity|discriminate]].
+        * eexists. split; [split; [exact Hn|reflexivity]|left; reflexivity].
+      + destruct (map_get c s).
+        * eexists. split; [split; [exact Hn|reflexivity]|right; eexists; split; [reflexivity|discriminate]].
+        * eexists. split; [split; [exact Hn|reflexivity]|left; reflexivity].
+      + eexists. split; [split; [exact Hn|reflexivity]|right; eexists; split; [reflexivity|]].
+        destruct (map_get c s); discriminate.
+    - injection Hstep as <-.
+      eexists. split; [split; [exact Hn|reflexivity]|left; reflexivity].
+    - injection Hstep as <-. destruct (map_get c s).
+      + eexists. split; [split; [exact Hn|reflexivity]|right; eexists; split; [reflexivity|discriminate]].
+      + destruct s; eexists; (split; [split; [exact Hn|reflexivity]|left; reflexivity]).
+    - injection Hstep as <-.
+      destruct (store_step_shape atomic c tid t s p ch) as (_ & _ & _ & Hcase).
+      destruct Hcase as [(_ & p' & Hthr & _)|(_ & Hthr)].
+      + eexists. split; [split; [exact Hn|exact Hthr]|left; reflexivity].
+      + eexists. split; [split; [exact Hn|exact Hthr]|right; eexists; split; [reflexivity|discriminate]].
+    - injection Hstep as <-. unfold Conc.try_key. destruct (c_key c <? keycap) eqn:Hlt.
+      + eexists. split; [split; [exact Hn|reflexivity]|left; reflexivity].
+      + apply N.ltb_ge in Hlt.
+        eexists. split; [split; [exact Hn|reflexivity]|right; eexists; split; [reflexivity|]].
+        intros _. split; [exact Hlt|left; eauto].
+    - injection Hstep as <-.
+      eexists. split; [split; [exact Hn|reflexivity]|left; reflexivity].
+    - injection Hstep as <-.
+      eexists. split; [split; [exact Hn|reflexivity]|right; eexists; split; [reflexivity|discriminate]].
+    - injection Hstep as <-. destruct (map_get c s).
+      + eexists. split; [split; [exact Hn|reflexivity]|right; eexists; split; [reflexivity|discriminate]].
+      + eexists. split; [split; [exact Hn|reflexivity]|left; reflexivity].
+    - injection Hstep as <-. unfold Conc.try_key. destruct (c_key c <? keycap) eqn:Hlt.
+      + eexists. split; [split; [exact Hn|reflexivity]|left; reflexivity].
+      + apply N.ltb_ge in Hlt.
+        eexists. split; [split; [exact Hn|reflexivity]|right; eexists; split; [reflexivity|]].
+        intros _. split; [exact Hlt|right; eauto].
+    - injection Hstep as <-.
+      eexists. split; [split; [exact Hn|reflexivity]|right; eexists; split; [reflexivity|]].
+      destruct (strs_get c k); [|discriminate]. destruct (read (as_arena c) s); discriminate.
+    - injection Hstep as <-.
+      eexists. split; [split; [exact Hn|reflexivity]|right; eexists; split; [reflexivity|discriminate]].
+    - injection Hstep as <-.
+      eexists. split; [split; [exact Hn|reflexivity]|right; eexists; split; [reflexivity|discriminate]].
+  Qed.
+
+  (* recorded answers are never lost or altered: a thread's history only grows *)
+  Lemma step_history c c' tid ch m u x : step c tid ch = Some c' ->
+    nth_error (c_threads c) m = Some u -> In x (t_outs u) ->
+    exists u', nth_error (c_threads c') m = Some u' /\ In x (t_outs u').
+  Proof.
+    intros Hs Hu Hx. destruct (step_gen_shape _ _ _ _ _ Hs) as (t & t' & Hmv & Ho).
+    pose proof Hmv as [Hn _].
+    destruct (Nat.eq_dec m tid) as [->|Hne].
+    - exists t'. split; [eapply mv_nth_new; eauto|].
+      assert (u = t) by congruence. subst.
+      destruct Ho as [->|(o & -> & _)]; auto. right. auto.
+    - exists u. rewrite (mv_nth_other _ _ _ _ _ _ Hmv Hne). auto.
+  Qed.
+
+  Lemma reachable_history c c2 m u x : reachable c c2 ->
+    nth_error (c_threads c) m = Some u -> In x (t_outs u) ->
+    exists u', nth_error (c_threads c2) m = Some u' /\ In x (t_outs u').
+  Proof.
+    intros Hr Hu Hx. induction Hr as [|c1 c' tid ch Hr IH Hs]; eauto.
+    destruct IH as (u1 & Hu1 & Hx1). eapply step_history; eauto.
+  Qed.
+
+
+  (* ---------------------------------------------------------------- 4. property C03 *)
+
+  (* a recorded key answer to a call about string [s] is backed by an entry of the
+     string -> key map *)
+  Lemma answer_entry c t cl k s : JInv c ->
+    In t (c_threads c) -> In (cl, ROk k) (t_outs t) -> str_of_call cl = Some s ->
+    exists e, In e (c_map c) /\ e_key e = k /\ e_str e = s.
+  Proof.
+    intros HJ Ht Ho Hs.
+    destruct (ji_answers _ _ _ HJ t cl k Ht Ho) as (s' & Hcl & e & Hin & Hk & Hes).
+    assert (s' = s).
+    { destruct Hcl as [->|[(a & ->)| ->]]; cbn in Hs; congruence. }
+    subst s'. eauto.
+  Qed.
+
+  (* (a) all answers ever given, by any threads, agree: same string <-> same key *)
+  Theorem C03_same_key_iff c t1 t2 cl1 cl2 k1 k2 s1 s2 : JInv' c ->
+    In t1 (c_threads c) -> In t2 (c_threads c) ->
+    In (cl1, ROk k1) (t_outs t1) -> In (cl2, ROk k2) (t_outs t2) ->
+    str_of_call cl1 = Some s1 -> str_of_call cl2 = Some s2 ->
+    (s1 = s2 <-> k1 = k2).
+  Proof.
+    intros [HJ _] Ht1 Ht2 Ho1 Ho2 Hs1 Hs2.
+    destruct (answer_entry c t1 cl1 k1 s1 HJ Ht1 Ho1 Hs1) as (e1 & Hin1 & Hk1 & He1).
+    destruct (answer_entry c t2 cl2 k2 s2 HJ Ht2 Ho2 Hs2) as (e2 & Hin2 & Hk2 & He2).
+    split; intros Heq.
+    - assert (e1 = e2).
+      { apply (NoDup_map_inj_in e_str (c_map c)); auto; [apply HJ|congruence]. }
+      congruence.
+    - assert (e1 = e2).
+      { apply (NoDup_map_inj_in e_key (c_map c)); auto; [apply HJ|congruence]. }
+      congruence.
+  Qed.
+
+  (* (b) an answered key resolves to the string it was answered for *)
+  Theorem C03_resolves c t cl k s : AInv c -> JInv' c ->
+    In t (c_threads c) -> In (cl, ROk k) (t_outs t) -> str_of_call cl = Some s ->
+    exists r, strs_get c k = Some r /\ read (as_arena c) r = Some s.
+  Proof.
+    intros HA [HJ _] Ht Ho Hs.
+    destruct (answer_entry c t cl k s HJ Ht Ho Hs) as (e & Hin & Hk & He).
+    exists (e_ref e). split.
+    - rewrite <- Hk. apply strs_get_in; [apply HJ|]. now apply (ji_map_in_strs _ _ _ HJ).
+    - rewrite <- He. now apply map_denotes.
+  Qed.
+
+  (* ... and keeps doing so in every later state *)
+  Theorem C03_resolves_forever cap lim progs c0 c c2 t cl k s :
+    (forall c1, reachable c0 c1 -> AInv c1) -> c0 = init cap lim progs ->
+    reachable c0 c -> In t (c_threads c) -> In (cl, ROk k) (t_outs t) -> str_of_call cl = Some s ->
+    reachable c c2 ->
+    exists r, strs_get c2 k = Some r /\ read (as_arena c2) r = Some s.
+  Proof.
+    intros HA H0 Hr Ht Ho Hs Hr2.
+    apply In_nth_error in Ht as (m & Hm).
+    destruct (reachable_history c c2 m t _ Hr2 Hm Ho) as (u' & Hu' & Ho').
+    assert (Hr02 : reachable c0 c2) by (eapply reachable_trans; eauto).
+    eapply (C03_resolves c2 u'); eauto.
+    - eapply reachable_JInv'; eauto.
+    - eapply nth_error_In; eauto.
+  Qed.
+
+  (* (c) once an intern call for [s] has returned [k], the string -> key map answers [k] for [s] *)
+  Theorem C03_visible_after_return c t cl k s : AInv c -> JInv' c ->
+    In t (c_threads c) -> In (cl, ROk k) (t_outs t) -> intern_of cl s ->
+    map_get c s = Some k.
+  Proof.
+    intros HA [HJ _] Ht Ho Hcl.
+    assert (Hs : str_of_call cl = Some s) by (destruct Hcl as [->|(a & ->)]; reflexivity).
+    destruct (answer_entry c t cl k s HJ Ht Ho Hs) as (e & Hin & Hk & He).
+    apply map_get_some; eauto.
+  Qed.
+
+  (* the fast path of any call about a string the map answers [k] for, when it runs, returns [k] *)
+  Lemma fast_path_answers c c' tid ch u cl s k :
+    map_get c s = Some k ->
+    nth_error (c_threads c) tid = Some u -> t_pc u = PFast cl -> str_of_call cl = Some s ->
+    step c tid ch = Some c' -> c' = finish c tid u (ROk k).
+  Proof.
+    intros Hg Hu Hpc Hs Hstep. unfold Conc.step, Conc.step_gen in Hstep.
+    rewrite Hu, Hpc in Hstep. destruct (blocked c tid (PFast cl)); [discriminate|].
+    destruct cl; cbn in Hs; try discriminate; injection Hs as ->; rewrite Hg in Hstep; congruence.
+  Qed.
+
+  (* hence: after an intern of [s] has returned [k], every later fast-path lookup of [s]
+     (get, or the first step of another intern) that runs from this state answers [k] *)
+  Theorem C03_lookup_after_return c c' t cl0 k s tid ch u cl : AInv c -> JInv' c ->
+    In t (c_threads c) -> In (cl0, ROk k) (t_outs t) -> intern_of cl0 s ->
+    nth_error (c_threads c) tid = Some u -> t_pc u = PFast cl -> str_of_call cl = Some s ->
+    step c tid ch = Some c' ->
+    nth_error (c_threads c') tid =
+      Some (mkThread PIdle (t_call u) (t_prog u) ((cl, ROk k) :: t_outs u)).
+  Proof.
+    intros HA HJ' Ht Ho Hcl Hu Hpc Hs Hstep.
+    pose proof (C03_visible_after_return c t cl0 k s HA HJ' Ht Ho Hcl) as Hg.
+    rewrite (fast_path_answers c c' tid ch u cl s k Hg Hu Hpc Hs Hstep).
+    assert (Hcall : t_call u = cl).
+    { pose proof (jx_call _ (proj2 HJ') u (nth_error_In _ _ Hu)) as Hc.
+      unfold pc_call_ok in Hc. now rewrite Hpc in Hc. }
+    cbn. unfold set_thread. rewrite (nth_error_set_nth_eq _ _ _ _ Hu). now rewrite Hcall.
+  Qed.
+
+  (* (d) between calls the two maps hold the same entries and the keys are 0 .. count-1 *)
+  Theorem C03_dense_when_quiescent c : JInv' c -> quiescent c ->
+    drawn_keys c = [] /\
+    (forall e, In e (c_strs c) <-> In e (c_map c)) /\
+    (forall k, In k (keys_of (c_strs c)) <-> k < N.min (c_key c) keycap) /\
+    NoDup (keys_of (c_strs c)) /\
+    N.of_nat (length (c_strs c)) = N.min (c_key c) keycap.
+  Proof.
+    intros [HJ _] Hq. unfold quiescent in Hq. rewrite Forall_forall in Hq.
+    assert (Hd : drawn_keys c = []).
+    { unfold drawn_keys. induction (c_threads c) as [|u l IH]; simpl; auto.
+      rewrite IH by (intros x Hx; apply Hq; right; auto).
+      unfold drawn_key. rewrite (Hq u) by (left; auto). reflexivity. }
+    assert (Hr : forall k, In k (keys_of (c_strs c)) <-> k < N.min (c_key c) keycap).
+    { intros k. rewrite <- (ji_keys_range _ _ _ HJ k), Hd, app_nil_r. tauto. }
+    split; [exact Hd|]. split; [|split; [exact Hr|split; [apply HJ|]]].
+    - intros e. split.
+      + intros Hin. destruct (ji_half _ _ _ HJ e Hin) as [H|(u & Hu & Hh)]; auto.
+        unfold half_inserted in Hh. rewrite (Hq u Hu) in Hh. discriminate.
+      + apply (ji_map_in_strs _ _ _ HJ).
+    - rewrite <- (map_length e_key). apply NoDup_exact_length; [apply HJ|exact Hr].
+  Qed.
+
+  (* (e) between calls the interner holds exactly the distinct strings some completed intern
+     call answered a key for, each once: its length is the number of distinct strings *)
+  Theorem C03_count_is_distinct_strings c : JInv' c -> quiescent c ->
+    (forall s, In s (strs_of (c_strs c)) <->
+               exists t cl k, In t (c_threads c) /\ In (cl, ROk k) (t_outs t) /\ intern_of cl s) /\
+    NoDup (strs_of (c_strs c)).
+  Proof.
+    intros HJ' Hq. pose proof HJ' as [HJ HX].
+    destruct (C03_dense_when_quiescent c HJ' Hq) as (_ & Hsame & _).
+    split; [|apply HJ]. intros s. split.
+    - intros Hin. apply in_map_iff in Hin as (e & <- & Hin). apply Hsame in Hin.
+      destruct (jx_published _ HX e Hin) as (t & cl & Ht & Ho & Hcl). eauto 6.
+    - intros (t & cl & k & Ht & Ho & Hcl).
+      assert (Hs : str_of_call cl = Some s) by (destruct Hcl as [->|(a & ->)]; reflexivity).
+      destruct (answer_entry c t cl k s HJ Ht Ho Hs) as (e & Hin & Hk & He).
+      rewrite <- He. apply in_map. now apply (ji_map_in_strs _ _ _ HJ).
+  Qed.
+
+  (* (f) never more strings than keys *)
+  Theorem C03_never_exceeds_capacity c : JInv' c -> N.of_nat (length (c_strs c)) <= keycap.
+  Proof.
+    intros [HJ _]. rewrite <- (map_length e_key). apply NoDup_below_length; [apply HJ|].
+    intros k Hk. assert (Hlt : k < N.min (c_key c) keycap).
+    { apply (ji_keys_range _ _ _ HJ). apply in_or_app. auto. }
+    lia.
+  Qed.
+
+  (* ... and KeySpaceExhaustion is only ever answered by the key-drawing step of an intern
+     call that finds the counter at or beyond the capacity *)
+  Theorem C03_exhaustion_only_at_capacity c c' tid ch t t' cl :
+    step c tid ch = Some c' ->
+    nth_error (c_threads c) tid = Some t -> nth_error (c_threads c') tid = Some t' ->
+    t_outs t' = (cl, RErr KeySpaceExhaustion) :: t_outs t ->
+    keycap <= c_key c /\
+    ((exists s r, t_pc t = PKeyAdd s r) \/ (exists a s, t_pc t = PSKeyAdd a s)).
+  Proof.
+    intros Hstep Ht Ht' Ho.
+    destruct (step_gen_shape _ _ _ _ _ Hstep) as (u & u' & Hmv & Hou).
+    pose proof Hmv as [Hn _]. pose proof (mv_nth_new _ _ _ _ _ Hmv) as Hn'.
+    assert (u = t) by congruence. assert (u' = t') by congruence. subst u u'.
+    destruct Hou as [Hsame|(o & Ho' & Hk)].
+    - exfalso. rewrite Hsame in Ho. clear -Ho.
+      assert (Hl : length (t_outs t) = length ((cl, RErr KeySpaceExhaustion) :: t_outs t)) by now rewrite <- Ho.
+      simpl in Hl. lia.
+    - rewrite Ho' in Ho. injection Ho as _ ->. now apply Hk.
+  Qed.
+
+  (* ---------------------------------------------------------------- C03, all together *)
+
+  (* Every state any schedule can reach from the initial state satisfies JInv' — given the
+     storage invariant of reachable states (ConcArenaProofs.v) — and with it clauses (a)-(f). *)
+  Theorem C03_reachable cap lim progs c :
+    (forall c1, reachable (init cap lim progs) c1 -> AInv c1) ->
+    reachable (init cap lim progs) c ->
+    AInv c /\ JInv' c /\ N.of_nat (length (c_strs c)) <= keycap.
+  Proof.
+    intros HA Hr.
+    assert (HJ : JInv' c) by (eapply reachable_JInv'; eauto).
+    split; [auto|]. split; [exact HJ|]. now apply C03_never_exceeds_capacity.
+  Qed.
+
 End Proofs.
+
+Print Assumptions map_get_spec.
+Print Assumptions init_JInv'.
+Print Assumptions step_gen_JInv'.
+Print Assumptions step_JInv'.
+Print Assumptions step_JInv.
+Print Assumptions reachable_JInv'.
+Print Assumptions store_step_shape.
+Print Assumptions C03_same_key_iff.
+Print Assumptions C03_resolves.
+Print Assumptions C03_resolves_forever.
+Print Assumptions C03_visible_after_return.
+Print Assumptions C03_lookup_after_return.
+Print Assumptions C03_dense_when_quiescent.
+Print Assumptions C03_count_is_distinct_strings.
+Print Assumptions C03_never_exceeds_capacity.
+Print Assumptions C03_exhaustion_only_at_capacity.
+Print Assumptions C03_reachable.
